@@ -547,7 +547,9 @@ def check_eval(ck):
         ck.fact("eval.while.keys", False, f"O{len(kO)} T{len(kT)} R{len(kR)} Term{len(kTerm)} Init{len(kI)} PReset{len(kP)}")
     # average over independent episodes (N beyond any plausible parallel-evaluation chunk, and not a multiple of a power of two: the
     # statement's mean is the unweighted mean over all episodes however the implementation batches them)
-    for N, T in ([(2, 2), (37, 1)] + ([(131, 1)] if ck.thorough else [])):
+    # T = 0 is the boundary step cap: episodes of zero steps (the return is 0 whatever the environment does); a dispatch on the
+    # truthiness of max_steps would run those episodes without a cap
+    for N, T in ([(2, 2), (37, 1), (2, 0)] + ([(131, 1), (3, 0)] if ck.thorough else [])):
         env, pol = make("discrete", False, True)
         tra = trace(lambda env, pol, key: average_reward(env, pol, num_episodes=N, max_steps=T, key=key), env, pol, jr.key(0), argnames=["env", "pol", "key"], label="benchmark.average_reward")
         if N == 2:
@@ -566,6 +568,12 @@ def check_eval(ck):
         mean = sum(eps[1:], eps[0]) / N
         ck.prove(f"eval.mean_over_independent_episodes@N={N},T={T}", [], eq_elem(outa[tra.out_names[0]][()], mean),
                  replay=lambda res, tra=tra, Sa=Sa, ita=ita, mean=mean: concrete.replay_outputs(tra, Sa, res, uf_apps=ita.uf_apps, oracle={tra.out_names[0]: arr0(mean)}))
+        if T == 0:
+            ck.prove(f"eval.step_cap_zero_takes_no_step@N={N}", [], eq_elem(outa[tra.out_names[0]][()], 0),
+                     replay=lambda res, tra=tra, Sa=Sa, ita=ita: concrete.replay_outputs(tra, Sa, res, uf_apps=ita.uf_apps, oracle={tra.out_names[0]: arr0(0)}))
+            ck.fact(f"eval.step_cap_zero_no_transition@N={N}", not keys_of(ita, "T") and not any(isinstance(e_, dict) and e_.get("prim") == "while" for e_ in getattr(ita, "side", [])),
+                    f"transition applications under max_steps=0: {len(keys_of(ita, 'T'))}")
+            continue
         ik = keys_of(ita, "Init")
         ck.fact("eval.episode_keys_distinct" + ("" if N == 2 else f"@N={N}"), len(ik) == N and len({str(k) for k in ik}) == N, f"initial-state keys of the episodes: {ik[:4]}{'...' if N > 4 else ''}")
 
@@ -573,7 +581,7 @@ def check_eval(ck):
 def main():
     ck = Check("C19", "reported performance numbers")
     ck.mode = "REAL"
-    ck.bound(envs=2, eval_max_steps=[2, 3] if not ck.thorough else [2, 3, 4], eval_episodes=[2, 37] if not ck.thorough else [2, 37, 131], while_unwinding=3, alpha="symbolic in [0,1] for next(); 0.5 in the integration obligations")
+    ck.bound(envs=2, eval_max_steps=[2, 3] if not ck.thorough else [2, 3, 4], eval_episodes=[2, 37] if not ck.thorough else [2, 37, 131], eval_zero_cap="max_steps=0 with 2 (thorough: also 3) episodes", while_unwinding=3, alpha="symbolic in [0,1] for next(); 0.5 in the integration obligations")
     ck.stub("environment and policy uninterpreted", "logging backend: recording stub; jax.debug.callback operands are recorded in program order", "PRNG keys: free algebra")
     ck.out("TensorBoard / W&B / console backends' own I/O", "video recording", "float rounding")
     with ck.section("next"):
